@@ -52,8 +52,9 @@ def body_case(cm, roles, k, b):
     return 'OTHER'
 
 
-def simulate(seg, roles):
+def simulate(seg, roles, assume_begin=()):
     sim = PosSim(seg, roles)
+    sim.assume_begin = frozenset(assume_begin)
     sim.run()
     return sim
 
@@ -90,7 +91,7 @@ def rule_order(an, res, prop, containers):
                       site_of_seg(s2, m), 'iteration path [%s]' % ' '.join(s2.valuation()))
                 for b in ops.find_bodies(top, m):
                     check_body(res, prop, cm, roles, m, k, b)
-                    check_fifo_unbind(res, prop, cm, roles, m, b.seg)
+                    check_fifo_unbind(res, prop, cm, roles, m, b.seg, an)
                     if k == 'INSERT' and cm.name in TTL_CACHES:
                         # "same victim whenever nothing has expired" needs the head-expired test to read true deadlines
                         from rules_ttl import check_refile
@@ -133,15 +134,85 @@ def carried_destination(b, moves):
     return False
 
 
+def carried_head_invariant(b, roles):
+    """`auto front = l.begin(); for (key : range) { ... l.splice(front, l, pos); front = pos; }`: is `front == l.begin()` an invariant
+    of the loop?  Base: the variable's last value before the loop is l.begin() and the list is not touched in between.  Step: on
+    every iteration path, simulated with the variable standing for the head, either the variable is not written and the iteration
+    neither moves nor adds nor removes a node, or its last written value names the node that is first when the iteration ends.
+    Returns the set of terms that may be read as begin(), or None."""
+    lp, top = b.in_loop, b.top
+    if lp is None or roles.order is None:
+        return None
+    order = ('fld', ('this',), roles.order)
+    dests = [mv.dest for mv in b.seg.effs('MOVE') if isinstance(getattr(mv, 'dest', None), tuple) and mv.dest[:1] == ('lv',) and mv.dest[2] == lp.id]
+    if not dests or len(set((d[1], d[4]) for d in dests)) != 1:
+        return None
+    name, addr = dests[0][1], dests[0][4]
+
+    def is_var(loc):
+        return isinstance(loc, tuple) and len(loc) > 2 and loc[0] == 'var' and loc[1] == name and loc[2] == addr
+    init, dirty = None, False
+    for e in top.path.trace:
+        if e[0] == 'loop' and e[1] is lp:
+            break
+        if e[0] == 'lwr' and is_var(e[1]):
+            init, dirty = e[2], False
+        elif e[0] in ('call', 'loop') and (e[0] == 'loop' or e[1] == order):
+            dirty = True
+    if dirty or not (isinstance(init, tuple) and init[:2] in (('q', 'begin'), ('q', 'cbegin')) and init[2] == order):
+        return None
+    segs = next((ss for lp2, ss in top.loops if lp2 is lp), None)
+    if not segs:
+        return None
+    terms = set()
+    for s in segs:
+        for e in s.path.trace:
+            for x in e[1:]:
+                _collect_lv(x, name, addr, lp.id, terms)
+    terms |= set(dests)
+    for s in segs:
+        if s.status == 'exit' or not lift.feasible(s)[0]:
+            continue
+        sim = simulate(s, roles, terms)
+        if sim.infeasible:
+            continue
+        if sim.unknown or s.loops:
+            return None
+        last = None
+        for e in s.effects:
+            if e.kind == 'LOCAL' and is_var(e.loc):
+                last = e.val
+        if last is None and any(e[0] == 'lwr' and is_var(e[1]) for e in s.path.trace):
+            return None
+        if last is None:
+            if s.effs('MOVE', 'BIND', 'UNBIND', 'PART'):
+                return None
+        else:
+            n = sim.resolve_iter(last)
+            if not isinstance(n, Node) or n is not sim.first_node():
+                return None
+    return terms
+
+
+def _collect_lv(x, name, addr, lid, out, depth=0):
+    if isinstance(x, tuple) and depth < 12:
+        if x[:1] == ('lv',) and len(x) > 4 and x[1] == name and x[2] == lid and x[4] == addr:
+            out.add(x)
+            return
+        for y in x:
+            _collect_lv(y, name, addr, lid, out, depth + 1)
+
+
 def check_body(res, prop, cm, roles, m, k, b):
     seg = b.seg
     case = body_case(cm, roles, k, b)
-    sim = simulate(seg, roles)
+    head_terms = carried_head_invariant(b, roles) if carried_destination(b, seg.effs('MOVE')) else None
+    sim = simulate(seg, roles, head_terms or ())
     if sim.infeasible:
         return          # the path's own position tests contradict each other: it cannot be taken
     val = ' '.join(seg.valuation())
     moves = seg.effs('MOVE')
-    if carried_destination(b, moves):
+    if carried_destination(b, moves) and head_terms is None:
         # `auto front = l.begin(); for (key : range) { l.splice(front, l, pos); front = pos; }`: where the destination is depends on
         # what earlier iterations stored in the variable - an invariant of the loop the one-iteration summary does not establish
         msg = ('G-UNKNOWN splice destination held in an iterator variable that is carried from one range element to the next '
@@ -213,7 +284,8 @@ def check_body(res, prop, cm, roles, m, k, b):
         if unb and cm.name != 'lfu_cache' and cm.name != 'lfuda_cache':
             v = unb[0].ent
             if cm.name == 'fifo_cache':
-                okv = v.kind in ('FROMEND', 'FRONT') and any(c[0] == 'HASKEY' and c[2] and same_ent(c[1][0], v) for c in seg.conds)
+                okv = v.kind in ('FROMEND', 'FRONT') and (any(c[0] == 'HASKEY' and c[2] and same_ent(c[1][0], v) for c in seg.conds) or
+                                                         (v.kind == 'FRONT' and seg.cond('FULL') is True))     # as many keys as nodes
                 # the recycled node is the list head (spliced from begin() to end())
                 okv = okv and ((bool(moves) and moves[0].ent is not None and moves[0].ent.kind == 'FRONT') or
                                (not moves and single and v.kind == 'FRONT'))      # one node: the head is the tail, nothing to re-link
@@ -251,7 +323,27 @@ def check_body(res, prop, cm, roles, m, k, b):
             V(res, prop, 'R-WHO-MOVES', cm, b.where, 'a node other than the removed entry is moved', moves[0].site, 'moved: %r [%s]' % (others, val))
 
 
-def check_fifo_unbind(res, prop, cm, roles, m, seg):
+def optional_consulted(an, cm, roles):
+    """does any public operation of the fifo decide something by the engagement of a node's optional key position (has_value(), a
+    bool test, a comparison with nullopt)?  If none does (the head's liveness is read off `size == node count` instead), a stale
+    optional is never looked at and clearing it is not part of the representation any more."""
+    cached = getattr(roles, '_optional_consulted', None)
+    if cached is not None:
+        return cached
+    out = False
+    try:
+        for m2 in an.entry_points(cm):
+            for top in method_segments(an, cm, roles, m2):
+                for s in top.all_segments():
+                    if any(c[0] == 'HASKEY' for c in s.conds):
+                        out = True
+    except Exception:
+        out = True
+    roles._optional_consulted = out
+    return out
+
+
+def check_fifo_unbind(res, prop, cm, roles, m, seg, an=None):
     """fifo: a node whose key is erased (and that is not immediately re-bound) must have its optional back-pointer cleared: the next
     insert decides by has_value() whether the recycled node still owns an index entry"""
     if roles.name != 'fifo_cache':
@@ -267,6 +359,13 @@ def check_fifo_unbind(res, prop, cm, roles, m, seg):
                 cleared = True      # before (iterator saved, optional reset, then erased) or after the index erase
             if e.kind == 'BACKPTR' and same_ent(e.ent, u.ent) and isinstance(e.val, tuple) and e.val[0] == 'ctor' and not e.val[2]:
                 cleared = True
+        if not cleared and an is not None and not optional_consulted(an, cm, roles):
+            res.ob('R-FIFO-UNBIND', ok=True)
+            msg = ('fifo_cache: no operation consults the engagement of m_keyed_position (the head counts as keyed exactly when the '
+                   'counter equals the number of nodes); a stale optional after an erase is never read')
+            if msg not in res.assumptions:
+                res.assumptions.append(msg)
+            continue
         res.ob('R-FIFO-UNBIND', ok=cleared)
         if not cleared:
             V(res, prop, 'R-FIFO-UNBIND', cm, where_of(m, seg), 'erased node keeps its (now dangling) index iterator', u.site,
